@@ -841,6 +841,14 @@ func genPrompting(p *simkit.Plan, r *simkit.Rand, tier string) {
 			p.Ops = append(p.Ops, simkit.Op{Actor: "u", Kind: "unregister"})
 		}
 	}
+	// A stalled client: in half of the runs one invocation stays inside the
+	// prompter for a long simulated time while other callers queue up or the
+	// prompter is unregistered (-1 = none).
+	p.Cfg["slow_at"] = -1
+	if r.Chance(1, 2) {
+		p.Cfg["slow_at"] = int64(r.Intn(n))
+	}
+	p.Cfg["slow_ms"] = int64(simkit.Pick(r, []int{1500, 7000, 12000, 31000}))
 }
 
 type simPrompter struct {
@@ -849,11 +857,14 @@ type simPrompter struct {
 	active   int
 	invoked  int
 	unregRet bool
+	slowAt   int           // index of the invocation that stalls (-1 none)
+	slow     time.Duration // for how long (simulated)
 }
 
 func (p *simPrompter) enter(kind string) {
 	p.mu.Lock()
 	p.active++
+	idx := p.invoked
 	p.invoked++
 	if p.active > 1 {
 		p.s.Violate("C32", "concurrent-invocation", kind, "prompter invoked while another invocation is in progress (%d active)", p.active)
@@ -864,6 +875,10 @@ func (p *simPrompter) enter(kind string) {
 	p.mu.Unlock()
 	// Stay inside the prompter until the scheduler says otherwise.
 	p.s.Gate("", "prompter:"+kind)
+	if idx == p.slowAt && p.slow > 0 {
+		p.s.Count("fault.prompter_stalled", 1)
+		time.Sleep(p.slow)
+	}
 	p.mu.Lock()
 	if p.unregRet {
 		p.s.Violate("C32", "unregister-returned-during-invocation", kind, "UnregisterPrompter returned while the prompter was still being invoked")
@@ -896,11 +911,14 @@ func (p *simPrompter) Prompt(m string) (string, error) {
 
 func execPrompting(t *testing.T, plan *simkit.Plan) *simkit.Result {
 	var nontrivial bool
-	res := simkit.Run(t, plan, simkit.Options{MaxSteps: 5000, Horizon: time.Minute}, func(s *simkit.Sim) {
+	res := simkit.Run(t, plan, simkit.Options{MaxSteps: 5000, Horizon: 3 * time.Minute}, func(s *simkit.Sim) {
 		y := &yielder{s: s, atYield: map[string]bool{}, prefix: "prompting.", auto: "prompting."}
 		verif.YieldHook = y.hook
 		defer func() { verif.YieldHook = nil }()
-		pr := &simPrompter{s: s}
+		pr := &simPrompter{s: s, slowAt: -1}
+		if v, ok := plan.Cfg["slow_at"]; ok {
+			pr.slowAt, pr.slow = int(v), time.Duration(plan.Cfg["slow_ms"])*time.Millisecond
+		}
 		id := fmt.Sprintf("pmpt_verif_%d", plan.Seed)
 		if err := prompting.RegisterPrompterWithIdentifier(id, pr); err != nil {
 			panic(err)
@@ -986,8 +1004,24 @@ func execPrompting(t *testing.T, plan *simkit.Plan) *simkit.Result {
 		mu.Lock()
 		if !unregistered {
 			prompting.UnregisterPrompter(id)
+			pr.mu.Lock()
+			pr.unregRet = true
+			pr.mu.Unlock()
 		}
 		mu.Unlock()
+		// Every caller has returned and the prompter is unregistered: an
+		// invocation that is still inside the prompter now (it can only belong
+		// to a goroutine the registry started itself) is let run to its end,
+		// where it is reported.
+		for i := 0; i < 60; i++ {
+			pr.mu.Lock()
+			active := pr.active
+			pr.mu.Unlock()
+			if active == 0 {
+				break
+			}
+			time.Sleep(time.Second)
+		}
 		nontrivial = pr.invoked >= 2
 	})
 	res.NonTrivial = nontrivial
